@@ -2,7 +2,7 @@
 import os
 import shutil
 
-from vlib.common import REPO, VERIF, read, write, sha256, scan_assumptions
+from vlib.common import REPO, VERIF, AnchorLost, read, write, sha256, scan_assumptions
 from vlib.extract import Extractor
 from vlib import kani
 
@@ -45,13 +45,35 @@ def build(scratch):
                 r"impl FromSteelVal for \(\)", r"impl IntoSteelVal for \(\)", r"impl From<\(\)> for SteelVal",
                 r"impl From<bool> for SteelVal", r"impl FromSteelVal for bool", r"impl IntoSteelVal for bool"]:
         prims.append(ex.impl_block(PRIMS, hdr))
-    for t in ["f64", "f32"]:
-        prims.append(ex.macro_instance(PRIMS, "from_f64", 0, {"body": t}))
-        prims.append(ex.macro_instance(PRIMS, "try_from_impl", 0, {"type": "NumV", "body": t}))
-    for t in INT_TYPES_INTO:
-        prims.append(ex.macro_instance(PRIMS, "from_for_isize", 0, {"body": t}))
-    for t in INT_TYPES_FROM:
-        prims.append(ex.macro_instance(PRIMS, "try_from_impl", 0, {"type": "IntV", "body": t}))
+    # D5: instantiate the conversion macros for exactly the arguments the real file passes
+    def types(arg):
+        return [t.strip() for t in arg.split(",") if t.strip()]
+    seen_from, seen_into = set(), set()
+    for arg in ex.macro_invocations(PRIMS, "from_f64"):
+        for t in types(arg):
+            prims.append(ex.macro_instance(PRIMS, "from_f64", 0, {"body": t}))
+            seen_into.add(t)
+    for arg in ex.macro_invocations(PRIMS, "from_for_isize"):
+        for t in types(arg):
+            prims.append(ex.macro_instance(PRIMS, "from_for_isize", 0, {"body": t}))
+            seen_into.add(t)
+    for arg in ex.macro_invocations(PRIMS, "try_from_impl"):
+        if "=>" not in arg:
+            raise AnchorLost("try_from_impl! invocation of unknown shape")
+        variant, lst = arg.split("=>", 1)
+        for t in types(lst):
+            prims.append(ex.macro_instance(PRIMS, "try_from_impl", 0, {"type": variant.strip(), "body": t}))
+            seen_from.add(t)
+    if ex.src(PRIMS).count("macro_rules! try_from_int_impl"):
+        for arg in ex.macro_invocations(PRIMS, "try_from_int_impl"):
+            for t in types(arg):
+                prims.append(ex.macro_instance(PRIMS, "try_from_int_impl", 0, {"body": t}))
+                seen_from.add(t)
+    # impls that exist as plain items for some types (present or not depending on the revision)
+    for t in ["u64"]:
+        if t not in seen_into:
+            prims.append(ex.impl_block(PRIMS, r"impl From<%s> for SteelVal" % t))
+            prims.append(ex.impl_block(PRIMS, r"impl IntoSteelVal for %s" % t))
     conv = [ex.impl_block(CONV, r"impl<A: IntoSteelVal, B: IntoSteelVal> IntoSteelVal for \(A, B\)")]
     # rvals.rs
     rv = ["#[derive(Clone, Debug, PartialEq)] // real: #[derive(Clone, Debug, Hash, PartialEq)]\n" + ex.item(RVALS, "struct", "SteelComplex"),
@@ -145,7 +167,6 @@ OBS = {
     "abs_fix": _o(["C10", "C07"], "proof", ["abs"], "for all isize: exact |a| (bignum for MIN), no overflow panic"),
     "add_fix_big": _o(["C10"], "proof", ["add_two", "negate", "abs"], "fixnum+bignum, -bignum, |bignum| exact for |bignum| < 2^100 (exact i128 model of num-bigint)"),
     "add_big_big": _o(["C10"], "proof", ["add_two"], "bignum+bignum exact within the model domain"),
-    "division_fix_big": _o(["C10"], "proof", DIVS[:2] + DIVS[4:6] + DIVS[7:], "fixnum (op) bignum for the 6 quotient/remainder operators: R7RS sign rules, exact", tier="thorough"),
     "bigint_into_steelval_canonical": _o(["C10", "C20"], "proof", ["impl IntoSteelVal for BigInt"], "for all i128: IntV iff fits isize else BigNum, value preserved"),
     "rational32_into_steelval_canonical": _o(["C10", "C20"], "proof", ["impl IntoSteelVal for Rational32"], "denominator 1 => exact integer, else stays Rational with same parts"),
     "mixed_add_follows_ieee": _o(["C10"], "proof", ["add_two", "add_two_fallible", "negate"], "fixnum+flonum == IEEE (i as f64) + f bit-for-bit, for all (isize,f64)", tier="thorough"),
@@ -164,6 +185,9 @@ OBS = {
 for d in DIVS:
     OBS[f"{d}_table"] = _o(["C10"], "bounded", [d], "exact quotient/remainder with the R7RS sign rules incl. MIN/-1 -> bignum", bound=TABLE_BOUND)
     OBS[f"{d}_zero"] = _o(["C10", "C07"], "proof", [d], "zero divisor (exact 0 or 0.0) => Generic error value, for every fixnum / bignum dividend")
+for d in ["truncate_quotient", "truncate_remainder", "floor_quotient", "floor_remainder", "modulo", "euclidean_quotient", "euclidean_remainder"]:
+    OBS[f"{d}_fix_big"] = _o(["C10"], "proof", [d], "fixnum (op) bignum, every fixnum and every bignum with |b| < 2^100: exact result with the R7RS sign rule")
+OBS["ordering_fix_rational_table"] = _o(["C10"], "bounded", ["PartialOrd for SteelVal (IntV,Rational)/(Rational,IntV)"], "fixnum vs small rational ordering agrees with the exact comparison i*d <=> n", bound="fixnum from a 7-value boundary table x 6 rationals")
 for d in ["truncate_slash", "floor_slash", "euclidean_slash"]:
     OBS[f"{d}_table"] = _o(["C10"], "bounded", [d], "pair (quotient remainder) exact", bound=TABLE_BOUND, tier="thorough")
     OBS[f"{d}_zero"] = _o(["C10", "C07"], "proof", [d], "zero divisor => error value for every dividend")
